@@ -22,7 +22,8 @@ EXTENDS Literal, TLC, FiniteSets, Json
 CONSTANTS Widths,      \* set of widths to explore
           NReg,        \* number of registers
           Exhaustive,  \* TRUE: registers start from every value of the width (tiny widths); FALSE: from Seeds
-          MaxDepth     \* histories are cut at this length (simulation) / 1 for the exhaustive exploration
+          MaxDepth,    \* histories are cut at this length (simulation) / 1 for the exhaustive exploration
+          Focus        \* {} = every operation; otherwise simulate only these (aimed at the masking-sensitive ones)
 
 VARIABLES bits, reg, obs, hist
 
@@ -156,6 +157,7 @@ Init ==
 \* one public operation: destination d, sources s1, s2, immediate k
 Do(op, d, s1, s2, k) ==
   /\ Len(hist) <= MaxDepth
+  /\ Focus = {} \/ op \in Focus
   /\ op \in DivOps => ~IsZero(reg[s2])
   /\ LET r == Apply(op, reg[s1], reg[s2], reg[d], k, bits)
      IN /\ reg' = [reg EXCEPT ![d] = r[1]]
